@@ -52,6 +52,22 @@ fn gen_seq(rng: &mut StdRng, bits: u32) -> Vec<u128> {
 macro_rules! tree_test {
     ($name:ident, $ty:ty, $elem:ty, $bits:expr, $label:expr, $has_max_rule:expr, $prefetch:expr) => {
         fn $name(rng: &mut StdRng) {
+            if rng.gen_range(0..50) == 0 {
+                // the empty sequence: every path builds an equal tree, every query answers None
+                let e: Vec<$elem> = Vec::new();
+                let built = catch_unwind(AssertUnwindSafe(|| (<$ty>::from(e.clone()), e.iter().copied().collect::<$ty>(), <$ty>::new(&mut []), <$ty>::default())));
+                match built {
+                    Ok((a, b, c, d)) => {
+                        chk!($label, "[]".to_string(), "from(vec) == collect() == new(&mut [])".to_string(), (a == b, a == c), (true, true));
+                        for t in [&a, &b, &c, &d] {
+                            chk!($label, "[]".to_string(), "len/get/rank/select on the empty tree".to_string(),
+                                 (t.len(), t.get(0), t.rank(0 as $elem, 0).unwrap_or(0), t.rank(0 as $elem, 1), t.select(0 as $elem, 0), t.select(3 as $elem, usize::MAX), t.iter().count()),
+                                 (0, None, 0, None, None, None, 0));
+                        }
+                    }
+                    Err(_) => report($label, "[]".into(), "from / collect / new / default on the empty sequence".into(), "panic".into(), "an empty tree".into()),
+                }
+            }
             let s: Vec<$elem> = gen_seq(rng, $bits).into_iter().map(|x| x as $elem).collect();
             let inp = if s.len() <= 40 { format!("{:?}", s) } else { format!("len {} first {:?} ... (seeded generator)", s.len(), &s[..8]) };
             let built = catch_unwind(AssertUnwindSafe(|| <$ty>::from(s.clone())));
@@ -233,6 +249,21 @@ fn bitvector_test(rng: &mut StdRng) {
     chk!("BitVectorMut", hist.clone(), format!("ones_with_pos({}).collect()", p), bv.ones_with_pos(p).collect::<Vec<usize>>(), (p.min(n)..n).filter(|&i| model[i]).collect::<Vec<usize>>());
     let from_pos: BitVectorMut = (0..n).filter(|&i| model[i]).collect();
     chk!("BitVectorMut", hist.clone(), "collected from the positions of the ones: same ones".to_string(), from_pos.ones().collect::<Vec<usize>>(), (0..n).filter(|&i| model[i]).collect::<Vec<usize>>());
+    {
+        // C19: bool-based and position-based constructors give equal vectors (the latter ends at the last one)
+        let shapes = [1usize, 63, 64, 65, 511, 512, 513, 1023, 1024, 1025, 1536];
+        let m = shapes[rng.gen_range(0..shapes.len())];
+        let mut bits: Vec<bool> = (0..m).map(|_| rng.gen_bool(0.3)).collect();
+        bits[m - 1] = true;
+        let pos: Vec<usize> = (0..m).filter(|&i| bits[i]).collect();
+        let a: BitVectorMut = bits.iter().copied().collect();
+        let b: BitVectorMut = pos.iter().copied().collect();
+        chk!("BitVectorMut", format!("len {} ones at {:?}...", m, &pos[..pos.len().min(5)]), "from positions == from bools".to_string(), a == b, true);
+        let ai: BitVector = bits.iter().copied().collect();
+        let bi: BitVector = pos.iter().copied().collect();
+        chk!("BitVector", format!("len {} ones at {:?}...", m, &pos[..pos.len().min(5)]), "from positions == from bools".to_string(), ai == bi, true);
+        chk!("BitVector", format!("len {}", m), "clone == self, into/from round trip".to_string(), (ai.clone() == ai, BitVector::from(BitVectorMut::from(ai.clone())) == ai), (true, true));
+    }
     let rebuilt: BitVectorMut = model.iter().copied().collect();
     chk!("BitVectorMut", hist.clone(), "== vector collected from the same bools".to_string(), rebuilt == bv, true);
     let imm: BitVector = bv.clone().into();
